@@ -172,10 +172,12 @@ claim('C04', 'Lean 4 theorems on calendar arithmetic, the capture-normalisation 
       TB + "regex (which substrings the 173 patterns capture, which row wins) and chrono parse are validated differentially only; numeric-offset scanning is proved at instances.",
       "DESIGN.md §6 C04")
 
-claim('C11', 'Lean 4 theorems on a model of process_missing_year with the 25 h threshold regenerated from the source; end-to-end oracle on generated year-less logs across year boundaries, mtimes, containers and windows',
-      "Machine-checked: the last message gets the mtime's year; under the property's own exclusions (no 29 February, gaps under a year, time running back at most 25 h) every message gets its "
-      "true year; resulting dates never step back more than 25 h (unconditional); with --dt-after exactly the messages down to the first one before A are re-dated; the 29-February counterexample is "
-      "proved. Tie: generated RFC 3164 logs spanning 0-4 year boundaries x mtimes (file, gzip header, tar member) x zones x windows x containers x block sizes through the binary, printed years "
-      "compared with the generator's true dates and with the model.",
-      TB + "calendar model proved; chrono trusted for parsing; per-container mtime source checked end to end only.",
+claim('C11', 'Lean 4 theorems on a model of process_missing_year that is a function of the loop skeleton regenerated from the source (order of the jump test and exits, comparison operators, year step, break arms, threshold); in-process correspondence with the real SyslogProcessor; end-to-end oracle on generated year-less logs',
+      "Machine-checked over the regenerated skeleton (C11_skeleton: jump test, then start-of-file exit, then --dt-after test; `>` twice; step -1; break on OccursBefore only): for files without a 29 February the "
+      "last message gets the mtime's year (unconditional form proved false: a trailing 29 February is lost, C11_last_year_full_false), under the property's own exclusions every message gets its true year, "
+      "resulting dates never step back more than 25 h, with --dt-after exactly the messages down to the first one before A are re-dated; counter-models for a misplaced start-of-file exit and for a break on "
+      "equality (the two seeded changes). Tie: the REAL SyslogProcessor stages 0-2 on ~2900 generated year-less files per run (0-4 wraps at every position, runs of equal instants, 29 February, junk lines, "
+      "-a on instants) vs the model, per message; generated RFC 3164 logs x mtimes (file, gzip header, tar member) x zones x windows x containers x block sizes through the binary vs the generator's true "
+      "dates and the model.",
+      TB + "calendar model proved; chrono trusted for parsing; find_sysline_year (which line parses with which fill year) is hand-modelled and validated by the correspondence; per-container mtime source checked end to end only.",
       "DESIGN.md §6 C11")
